@@ -194,7 +194,9 @@ def one_run(res, seed, idx, cancel_at, phase, job_bias, pressure=None, defer=Non
             name = coro.cr_code.co_name
             if name == 'advance_and_maybe_flush':
                 tev('NB')
-            elif name == 'run_in_thread':
+            elif name in ('run_in_thread', 'backup_and_truncate'):
+                # the back-out of one block: `run_in_thread(self.backup_block, block)` itself, or (since the
+                # fix of N7) the coroutine that awaits it and then truncates the header merkle cache
                 tev('NK')
             try:
                 r = await orig_rwl(coro)
